@@ -48,7 +48,7 @@ func genC05(t *rapid.T) c05Scen {
 	s := c05Scen{CfgExpiryS: rapid.SampledFrom([]int{1, 2, 3600}).Draw(t, "cfg"), Redis: rapid.IntRange(0, 2).Draw(t, "backend") == 0}
 	n := rapid.IntRange(6, 10).Draw(t, "nlanes")
 	for i := 0; i < n; i++ {
-		l := c05Lane{V: rapid.SampledFrom([]int{4, 5, 5}).Draw(t, "v"), Clean1: rapid.IntRange(0, 3).Draw(t, "clean1") == 0,
+		l := c05Lane{V: rapid.SampledFrom([]int{3, 4, 5, 5, 5}).Draw(t, "v"), Clean1: rapid.IntRange(0, 3).Draw(t, "clean1") == 0,
 			HoldMs: rapid.SampledFrom([]int{0, 0, 1500, 2600}).Draw(t, "hold"), WaitMs: rapid.SampledFrom([]int{0, 400, 1500, 2600}).Draw(t, "wait"),
 			Clean2: rapid.IntRange(0, 4).Draw(t, "clean2") == 0, Terminate: rapid.IntRange(0, 7).Draw(t, "term") == 0}
 		l.End = rapid.SampledFrom([]string{"disconnect", "kill", "kill"}).Draw(t, "end")
@@ -76,6 +76,12 @@ func minInt(a, b int) int {
 }
 
 func runC05(s c05Scen, c *ev.Case) *ev.Violation {
+	for _, l := range s.Lanes {
+		if l.V == 3 {
+			c.Label("mqtt31_client")
+			break
+		}
+	}
 	cfg := fixture.BaseConfig()
 	cfg.MQTT.SessionExpiry = time.Duration(s.CfgExpiryS) * time.Second
 	if s.Redis {
@@ -362,7 +368,7 @@ func genC05Storm(t *rapid.T) c05StormScen {
 	var s c05StormScen
 	n := rapid.IntRange(2, 4).Draw(t, "n")
 	for i := 0; i < n; i++ {
-		s.Conns = append(s.Conns, c05Conn{V: rapid.SampledFrom([]int{4, 5}).Draw(t, "v"), Clean: rapid.Bool().Draw(t, "clean"),
+		s.Conns = append(s.Conns, c05Conn{V: rapid.SampledFrom([]int{3, 4, 5, 5}).Draw(t, "v"), Clean: rapid.Bool().Draw(t, "clean"),
 			DelayUs: rapid.SampledFrom([]int{0, 0, 0, 200, 1000, 5000}).Draw(t, "delay")})
 	}
 	return s
